@@ -82,6 +82,7 @@ STRENGTHENED = {
  'C14_10': 'missed at first (tolerances were declared before the algorithm was built) -> `worst-*-tolerances-declared-after-construction`: symbolic tolerances written into the problem after the algorithm and its evaluator exist',
  'C20_10': 'missed at first (every point kept the default stored precision 7) -> equality between points whose `features[\'precision\']` is 0, 2, 3, 10, 12 (equal and different on the two sides), both argument orders',
  'C05_11': 'missed at first (every sweep object ran once; the second sweep used a new SweepAlgorithm) -> the SAME sweep object runs again after the generator was given a new plan (other designs, one fewer)',
+ 'C04_11': 'inconclusive at first (hash of a symbolic number: the changed archive keys a set on cost tuples) -> `step-after-add-and-truncate-*`: pre-state built by real add()/truncate() on pinned symbolic costs, symbolic hashing allowed (every key symbolic), newcomer may repeat a dropped member',
 }
 print('| seed | change (abridged) | needs | verdict of the check(s) on the patched tree | note |')
 print('|---|---|---|---|---|')
